@@ -39,6 +39,7 @@ import json, math
 from fractions import Fraction as F
 import common
 from common import enc, dec, encl, decl, err_kind, close
+from props import c10_f64 as F64
 
 ID = "C10"
 RULE = ("lag vectors from reflection coefficients (dyadic: exact regime; tenths |k|<=9/10: float regime), "
@@ -56,7 +57,12 @@ RULE = ("lag vectors from reflection coefficients (dyadic: exact regime; tenths 
         "(order below, equal to, above len(r); default) / lpc.kautocor / lpc.kcovar / lpc sharing one argument object "
         "(list, tuple, deque, read-only sequence, Stream, generator; or the list acorr returned), caller-side "
         "assignments between calls, all ordered pairs of a call menu over a few small lists; non-trivial when at "
-        "least two calls ran and one of them is non-trivial")
+        "least two calls ran and one of them is non-trivial; FLOAT TWIN (entry f64, props/c10_f64.py): acorr / "
+        "lag_matrix / levinson_durbin / lpc.kautocor / lpc.kcovar on lists of Python floats (near-singular step-ups "
+        "|k| = 1 - 2^-10 .. 2^-40 in one or two stages with orders beyond / up to / before the stage, reflection "
+        "coefficients in tenths, autocorrelations of data, random lags, exactly singular dyadic lags; blocks uniform / "
+        "dyadic / decaying / magnitudes 1e-6..1e6 / sines / geometric), order None, below, at and beyond len: compared "
+        "BIT FOR BIT with the binary64 run of the model")
 TRUSTED = [
     "hand-written Lean model ALV/Model/C10.lean of lazy_lpc.toeplitz/levinson_durbin/lpc.kautocor/lpc.kcovar and "
     "lazy_analysis.acorr/lag_matrix (modelled, not verified: ZFilter/Poly arithmetic is taken as coefficient-wise "
@@ -77,19 +83,36 @@ TRUSTED = [
     "(also near-singular ones) whose exact recursion meets no zero divisor must return and are compared under the "
     "conditioning-aware bound 2*(order+2)*growth^2*2^-52/(smallest relative divisor) when it is <= 1e-2 (an empirical "
     "bound, calibrated on 2400 runs with a factor 25 of slack, not a theorem); complex samples: float regime 1e-8",
+    "float twin (entry f64): the generic model with Python's builtin sum as a parameter (ALV/Model/C10Float.lean) run on "
+    "binary64 bit patterns and compared bit for bit - numerator, error, tables, exception kinds; near-singular float "
+    "runs are thereby DECIDED, not bounded.  Trusted: (i) Lean's Float + - * / abs and comparisons are the IEEE-754 "
+    "binary64 operations CPython performs (round to nearest even); (ii) builtin sum on a generator of floats is the "
+    "compensated loop of builtin_sum_impl (CPython >= 3.12; modelled as sumN, validated by the extra check "
+    "float-twin-sum-is-cpython-sum on a fixed table, and by the bit-for-bit tie itself: the plain fold gives other bits "
+    "on most cases, histogram f64_compensated_sum_vs_plain_fold; on an older CPython the harness compares with the plain "
+    "fold); (iii) the operation ORDER of Poly / ZFilter arithmetic as read from lazy_poly.py / lazy_filters.py (header "
+    "of the model file): c * b_i per coefficient, a_i + (-(c * b_i)), B = A(1/z) * z^-m without rounding, absent terms "
+    "read as 0.0; (iv) -0.0 is stored as +0.0 (no zero's sign is observable: zero divisors raise); runs with a "
+    "non-finite number are not compared (histogram f64_compared).  Proved: the twin over exact operations IS the model "
+    "(Props.C10 twin_plain_is_model: any carrier, sum = left fold; sumN_exact_is_sum: the compensated loop over a ring "
+    "is the plain sum; twin_exact_is_model).  A bit mismatch is additionally judged by the Lean SPEC evaluated in exact "
+    "rationals on the implementation's binary64 output against the twin's output (slack 2^10): that verdict is a "
+    "heuristic for labelling a failing input, the bit comparison itself has no tolerance",
 ]
 ASSUMPTIONS = [
     "order / max_lag is omitted, None, an int (bool) or a finite float / Fraction (inf: levinson_durbin does not "
     "terminate, not generated); lag vectors / blocks are finite sequences of ints, bools, Fractions, floats or complex",
-    "theorems are over an arbitrary field (kautocor_minimises, kcovar_zero_division_singular: ordered field); float "
-    "rounding is outside them",
+    "theorems are over an arbitrary field (kautocor_minimises / _minimiser_unique, kcovar_zero_division_singular: "
+    "ordered field); float rounding is outside them: on binary64 the tie is the bit-exact twin, no theorem bounds the "
+    "rounding error of the recursion",
 ]
 MANIFEST = {
     "text": "Lean 4 theorems, for every field / every lag vector / every order (no bound): levinson_durbin as coded "
             "returns a monic solution of the Yule-Walker equations with error = sum_j a_j r_j, raises ParCorError "
             "exactly when an intermediate prediction error is zero, E_{p+1} = E_p - Delta^2/E_p, matrix form with "
             "toeplitz; acorr / lag_matrix / toeplitz are the documented sums; lpc.kautocor = levinson_durbin(acorr), its "
-            "error is the energy of a * zero-extended block and (ordered field) the filter minimises it; lpc.kcovar as "
+            "error is the energy of a * zero-extended block and (ordered field) the filter is the unique minimiser of it; "
+            "lpc.kcovar as "
             "coded (Gram-Schmidt with its exits) returns a solution of the covariance normal equations whose error is "
             "the residual energy over n >= p, and minimises it; it fails to return exactly through line 326 "
             "(ZeroDivisionError iff a zero beta[m], which over an ordered field means a singular system: the delayed "
@@ -99,7 +122,9 @@ MANIFEST = {
             "every spelling of the order (negative int, bool, float, Fraction) has its modelled outcome, the "
             "StrategyDict names and the default strategy's dispatch.  Tied to /repo by a differential run (exact-rational "
             "/ Gaussian-rational model vs the float-contaminated impl, exact on dyadic inputs) that also evaluates the "
-            "Lean spec on the coefficients the impl returns.",
+            "Lean spec on the coefficients the impl returns; on Python floats the generic model (sum = CPython's compensated "
+            "float loop, a parameter proved to be the plain sum over exact operations) is run on binary64 and compared "
+            "bit for bit.",
     "note": "Trusted: Lean kernel + propext/Classical.choice/Quot.sound, the Python harness, the hand-written models "
             "(ZFilter/Poly arithmetic taken as coefficient-wise arithmetic on trimmed coefficient lists; the call layer). "
             "numpy is absent: lpc.nautocor / lpc.covar bodies are neither modelled nor run.  Float rounding is outside "
@@ -520,6 +545,9 @@ def generate(rng, tier, scale=1):
     cases += _nearsing_cases(rng, (120 if q else 4000) * scale)
     cases += _complex_cases(rng, (150 if q else 4000) * scale)
     if scale == 1:
+        cases += list(F64.EDGE)
+    cases += F64.cases(rng, (700 if q else 20000) * scale)
+    if scale == 1:
         cases += _hist_exhaustive(tier)
     cases += _hist_cases(rng, (500 if q else 12000) * scale, (2 if q else 12) if scale == 1 else 0)
     return cases
@@ -687,6 +715,8 @@ def impl(c):
     e = c["entry"]
     if e == "history":
         return _impl_history(c)
+    if e == "f64":
+        return F64.impl(c)
     _IMPL.pop(key(c), None)
     vals = _vals(c[_FIELD.get(e, "blk")], c["num"])
     kind = c.get("seq")
@@ -709,6 +739,8 @@ _FIELD = {"levinson": "r", "toeplitz": "vect"}
 def request(c):
     if c["entry"] == "history":
         return {"entry": "history", "calls": [r for r in _HIST.get(key(c), []) if r is not None]}
+    if c["entry"] == "f64":
+        return F64.request(c)
     r = {k: v for k, v in c.items() if k not in ("num", "fam", "seq", "kw", "via")}
     if isinstance(r.get("ord"), dict):
         r["ord"] = {k: v for k, v in r["ord"].items() if k != "py" or r["ord"]["k"] == "real"}
@@ -949,6 +981,8 @@ def _cov_spec(entry, order, scale):
 def compare(c, io, drv):
     if c["entry"] == "history":
         return _compare_history(c, io, drv)
+    if c["entry"] == "f64":
+        return F64.compare(c, io, drv)
     out = _compare_single(c, io, drv)
     if "arg_modified" in io:
         out.append(("spec", "%s modified its argument: the caller's %s %s became %s" %
@@ -1165,6 +1199,8 @@ def _cmp_gauss(c, io, drv):
 # statistics, shrinking, search
 # ----------------------------------------------------------------------------------------
 def nontrivial(c, io):
+    if c["entry"] == "f64":
+        return F64.nontrivial(c, io)
     if c["entry"] == "history":
         ran = [(s, o) for s, o in zip(io.get("subs", []), io.get("calls", [])) if s is not None]
         return len(ran) >= 2 and any(nontrivial(s, o) for s, o in ran)
@@ -1182,6 +1218,8 @@ def tally(eng, c, io):
     eng.count("entry", e)
     if e == "history":
         return _tally_history(eng, c, io)
+    if e == "f64":
+        return F64.tally(eng, c, io)
     info = _INFO.get(key(c), {})
     eng.count("regime", "%s:%s" % (e, info.get("regime", "?")))
     if info.get("skipped"):
@@ -1264,6 +1302,9 @@ def shrink(c):
     if e == "history":
         yield from _shrink_history(c)
         return
+    if e == "f64":
+        yield from F64.shrink(c)
+        return
     fld = {"levinson": "r", "toeplitz": "vect"}.get(e, "blk")
     xs = c[fld]
     okey = "order" if e in ("levinson", "kautocor", "kcovar", "lpc") else ("max_lag" if e != "toeplitz" else None)
@@ -1313,6 +1354,9 @@ def neighbours(c):
     if e == "history":
         yield from _neighbours_history(c)
         return
+    if e == "f64":
+        yield from F64.neighbours(c)
+        return
     fld = {"levinson": "r", "toeplitz": "vect"}.get(e, "blk")
     xs = c[fld]
     okey = "order" if e in ("levinson", "kautocor", "kcovar", "lpc") else ("max_lag" if e != "toeplitz" else None)
@@ -1335,6 +1379,8 @@ def classify(c, io, drv):
     e = c["entry"]
     if e == "history":
         return _classify_history(c, io, drv)
+    if e == "f64":
+        return F64.classify(c, io, drv)
     if io.get("arg_modified") is not None:
         return "%s:argument-modified" % e
     if "err" in io:
@@ -2060,3 +2106,8 @@ def _neighbours_history(c):
         # one more look at the shared list after everything else
         for extra in ({"fn": "levinson", "order": None}, {"fn": "toeplitz"}, {"fn": "acorr", "max_lag": None}):
             yield dict(c, calls=calls + [dict(extra, arg=0, scribble=False)])
+
+
+def extra_checks(eng):
+    for r in F64.extra_checks(eng):
+        yield r
